@@ -482,6 +482,12 @@ fn multi_diagnostic_programs() -> Vec<String> {
         "x = 1 + u + v; x".to_owned(),
         "f = (p : int) => (q : int) => (r : int) => (s : int) => (a = b + c + p + q + r + s; b = 1 + 1; c = 2 + 2; a); f 1 2 3 4".to_owned(),
         "(x : int) => x + true + (y => y)".to_owned(),
+        // three and four type diagnostics in one run (whatever main.rs does with the list of a stage)
+        "p = 1 + true; q = if 1 then 2 else 3; r = 1 2; s = true * false; 0".to_owned(),
+        "p : (1 + true) = 1; q : (if 1 then 2 else 3) = 2; r : (1 2) = 3; 0".to_owned(),
+        "(f : int -> int) => f true + f (1 2) + (if 3 then 4 else f f)".to_owned(),
+        "a = $; b = ?; c = @; d = $; 0".to_owned(),
+        "a = u; b = v; c = w; d = u + v + w; 0".to_owned(),
     ];
     v.extend(value_first_programs().into_iter().step_by(7));
     let fam = Family::new(3);
